@@ -230,7 +230,9 @@ struct AppTokenWorld : World
       }
       record_state();
       // invariant sweep: every live token resolves to its pointer
-      for (auto& [t, ptr] : model) {
+      for (auto& kv : model) {
+        unsigned t = kv.first;
+        void* ptr = kv.second;
         void* got = nullptr;
         Outcome o = attempt([&] { got = map.lookup_index((uint8_t)t); });
         if (o != OK || got != ptr) {
